@@ -413,6 +413,10 @@ pub fn run(args: &Args, out: &mut Out) {
         ncorpus + ngen,
         |idx, rng| {
             if idx < ncorpus {
+                // quick: a third of the shipped sources, rotating with the seed
+                if !args.thorough() && idx % 3 != (args.seed % 3) as usize {
+                    return None;
+                }
                 let f = &files[idx];
                 let src = std::fs::read_to_string(f).ok()?;
                 for bad in ["Sampler", "sampler", "midi", "loadwav", "gen_sampler", "Slider", "Probe"] {
